@@ -369,14 +369,16 @@ Proof.
     assert (R0 : restrictG false (nnot no_taxon) np_true (nnot no_taxon) t1 =
                  restrictG false (p1_keep lf taxa) np_true np_false (T i None l e (k :: r))).
     { pose proof (dropL_restrict no_taxon t1) as D. rewrite dropL_root in D.
-      unfold drop_fails, drop_root in D. rewrite K in D.
-      rewrite restrictG_node. unfold np_true at 2. cbv iota.
-      unfold t1 in D at 1 2. unfold app_np in D. rewrite t_id_set_kids, t_taxon_set_kids, set_kids_set_kids in D.
-      simpl t_id in D. simpl t_taxon in D. simpl set_kids in D. simpl no_taxon in D. rewrite andb_true_r in D.
-      destruct (omap_list (restrictG false (p1_keep lf taxa) np_true np_false) (k :: r)) as [|c [|c2 r2]];
-        simpl in D; unfold np_false;
-        destruct (restrictG false (nnot no_taxon) np_true (nnot no_taxon) t1); simpl in D; try discriminate D;
-        try reflexivity; inversion D; reflexivity. }
+      assert (F1 : drop_fails no_taxon t1 = is_nil (omap_list (restrictG false (p1_keep lf taxa) np_true np_false) (k :: r))).
+      { unfold drop_fails. rewrite K. unfold app_np, t1. rewrite t_taxon_set_kids. simpl t_taxon. simpl no_taxon.
+        apply andb_true_r. }
+      assert (F2 : drop_root no_taxon t1 = T i None l e (omap_list (restrictG false (p1_keep lf taxa) np_true np_false) (k :: r))).
+      { unfold drop_root. rewrite K. unfold t1. rewrite set_kids_set_kids. reflexivity. }
+      rewrite F1, F2 in D. rewrite restrictG_node. unfold np_true at 2. cbv iota. unfold np_false.
+      revert D. generalize (omap_list (restrictG false (p1_keep lf taxa) np_true (fun _ _ => false)) (k :: r)).
+      intros A D.
+      destruct (restrictG false (nnot no_taxon) np_true (nnot no_taxon) t1) as [x0|];
+        destruct A as [|c [|c2 r2]]; simpl in D; try discriminate D; try (inversion D; reflexivity); reflexivity. }
     assert (R : restrictG sup (nnot no_taxon) np_true (nnot no_taxon) t1 =
                 restrictG sup (p1_keep lf taxa) np_true np_false (T i None l e (k :: r))).
     { destruct sup; [|exact R0].
